@@ -825,6 +825,8 @@ def check_deep_writers(prog, rep, rule):
 
 APGF = 'fim/graph/abc_property_graph.py'
 MUTANTS = [
+    {'name': 'stitch-node-not-unsettable', 'file': 'fim/graph/abc_property_graph.py', 'rule': 'R4',
+     'find': ",\n        \"stitch_node\": ABCPropertyGraphConstants.PROP_STITCH_NODE\n", 'replace': "\n"},
     {'name': 'repr-assumes-stitch-flag-present', 'file': 'fim/user/model_element.py', 'rule': 'R12',
      'find': 'node_props.pop(ABCPropertyGraph.PROP_STITCH_NODE, None)', 'replace': 'node_props.pop(ABCPropertyGraph.PROP_STITCH_NODE)'},
     {'name': 'sub-interfaces-not-written', 'file': APGF, 'rule': 'R9',
